@@ -182,7 +182,31 @@ def flatten_guard(test, pol):
             for v in test.values:
                 out.extend(flatten_guard(v, False))
             return out
-    return [(test, pol)]
+    return [_positive(test, pol)]
+
+
+_NEG_OPS = {ast.NotIn: ast.In, ast.IsNot: ast.Is, ast.NotEq: ast.Eq}
+
+
+def _positive(test, pol):
+    """canonical leaf: `a not in b` / `a is not b` / `a != b` under polarity p is `a in b` / `a is b` / `a == b` under
+    not p - so `if x not in d: return` and `if x in d: ...` give the same guard"""
+    if isinstance(test, ast.Compare) and len(test.ops) == 1 and type(test.ops[0]) in _NEG_OPS:
+        new = ast.Compare(left=test.left, ops=[_NEG_OPS[type(test.ops[0])]()], comparators=test.comparators)
+        ast.copy_location(new, test)
+        new._parent = getattr(test, "_parent", None)
+        new._orig = test
+        return (new, not pol)
+    return (test, pol)
+
+
+def canon_guard(text, pol):
+    """the canonical (text, polarity) form in which `flat_guards` reports the signed test written as `text`"""
+    e = ast.parse(text, mode="eval").body
+    out = flatten_guard(e, pol)
+    if len(out) != 1:
+        raise ValueError("canon_guard: `%s` flattens into %d leaves" % (text, len(out)))
+    return (src(out[0][0]), out[0][1])
 
 
 def flat_guards(node, stop=None):
